@@ -27,16 +27,16 @@ PROPS = {
     },
     "C05": {
         "lean_modules": ["WP.Props.C05", "WP.Props.Reach"],
-        "lean_support": ["WP.Props.SwapPath", "WP.Props.C10", "WP.Props.C09", "WP.Props.C02", "WP.Props.C06", "WP.Props.C03"],
+        "lean_support": ["WP.Props.SwapPath", "WP.Props.FeePath", "WP.Props.PathBase", "WP.Props.C10", "WP.Props.C09", "WP.Props.C02", "WP.Props.C06", "WP.Props.C03"],
         "families": [("hist", 8000, 400000)],
         "history": True,
         "rule": "hist: random histories (40-100 ops after each `H init`) of open / increase / decrease (Anchor or Pinocchio path, chosen per op) / "
                 "update-fees / collect / swap (both directions and modes, limits on and off initialized ticks) / clock / rewards on a real Whirlpool with "
                 "fixed, dynamic or mixed tick arrays; digest of the whole state compared with the model after every op; oracle recomputes pool liquidity and "
                 "every tick's net/gross/initialized from the positions; non-trivial = an operation that succeeded; distinct by hash of (op line, clock)",
-        "trusted": ["C05 in Lean: preservation proved for every operation; for `swap` through the whole loop for static-fee pools over aligned consecutive array sequences "
-                    "(WP.Path.swap_static, WP.Reach.swap_step, WP.Reach.reach: every reachable state); for adaptive-fee pools the swap obligation (SwapPreserves) is decided by the "
-                    "history correspondence and the C05 oracle on the implementation"],
+        "trusted": ["C05 in Lean: preservation proved for every operation incl. `swap` through the whole loop, static and adaptive fee, over aligned consecutive array sequences "
+                    "(WP.Path.swap_path, WP.Reach.swap_step, WP.Reach.reach: every reachable state); hypotheses kept visible: SeqOK (proved for the loader's output: buildSeq_seqOK), "
+                    "u64 amount, fee rate within the hard limit, adaptive-fee state in range (InfoOK, itself preserved)"],
     },
     "C08": {
         "lean_modules": ["WP.Props.C08"],
@@ -58,11 +58,11 @@ PROPS = {
     },
     "C03": {
         "lean_modules": ["WP.Props.C03"],
-        "lean_support": ["WP.Props.C06", "WP.Props.SwapPath", "WP.Props.Reach"],
+        "lean_support": ["WP.Props.C06", "WP.Props.SwapPath", "WP.Props.FeePath", "WP.Props.PathBase", "WP.Props.Reach"],
         "families": [("hist", 10000, 500000)],
         "history": True,
         "rule": "hist: random histories (40-100 ops after each `H init`) on a real Whirlpool (fixed / dynamic / mixed tick arrays; Anchor or Pinocchio liquidity path per op; fee accumulators started anywhere in u128 incl. just below wrap-around); the whole state digest is compared with the Lean model after every op and the implementation-side oracles (hist_oracle.rs) run after every op; non-trivial = a successful op; distinct by hash of (op line, clock)",
-        "trusted": ["final price between limit and start price: proved through the whole loop for static-fee pools over aligned consecutive array sequences (WP.Path.swap_static, WP.Reach.swap_step); for adaptive-fee pools it is the stated obligation `PriceBounded` (checked by the swap oracle on the implementation); the handler threshold comparison is modelled (swapThreshold), single and two-hop handlers are not executed here"],
+        "trusted": ["final price between limit and start price: proved through the whole loop (static and adaptive fee) over aligned consecutive array sequences (WP.Path.swap_path, WP.Reach.swap_step), also checked by the swap oracle on the implementation; the handler threshold comparison is modelled (swapThreshold), single and two-hop handlers are not executed here"],
     },
     "C06": {
         "lean_modules": ["WP.Props.C06"],
@@ -162,7 +162,7 @@ PROPS = {
     },
     "C10": {
         "lean_modules": ["WP.Props.C10"],
-        "lean_support": ["WP.Props.C13", "WP.Props.SwapPath", "WP.Props.Reach"],
+        "lean_support": ["WP.Props.C13", "WP.Props.SwapPath", "WP.Props.FeePath", "WP.Props.PathBase", "WP.Props.Reach"],
         "families": [("hist", 12000, 300000), ("dyn", 10000, 500000)],
         "history": True,
         "rule": "hist: pool histories in which half of the swaps go through the REAL account-packaging layer (AccountInfo objects -> SparseSwapTickSequenceBuilder::new/try_build -> swap) with a random "
